@@ -157,7 +157,41 @@ def classify_history(rec, verdict, hm):
                 continue
             if got and (not exp or all(v == 0 for v in exp.values())):
                 return ("F32", "reset-priority latch turns on when set and reset, both active, become inactive in the same step and the set value is computed by a longer chain of combinators than the reset value")
+        # F47, the mirror image for set priority: the reset value reaches the latch later than the set value (it has the
+        # memory's own signal type and is therefore sent through the remapper, or it is computed by a longer chain);
+        # when both fall in the same step the latch sees reset without set for a tick and drops
+        if c["kind"] == "sr_latch" and hm.get("step", 0) > 0 and c["enable_or_set"] == 0 and c["reset"] == 0 \
+                and c.get("prev_enable_or_set", 0) != 0 and c.get("prev_reset", 0) != 0 and c["prev"] != 0:
+            exp = hm.get("expected", {})
+            got = hm.get("got", {})
+            sd, rd = latch_depths(rec).get(c.get("cell"), (0, 0))
+            if exp and any(v != 0 for v in exp.values()) and (not got or all(v == 0 for v in got.values())) \
+                    and (rd > sd or latch_reset_remapped(rec, c.get("cell"))):
+                return ("F47", "set-priority latch drops when set and reset, both active, become inactive in the same step: the reset value reaches the latch later than the set value (remapped because it has the memory's signal type, or computed by a longer chain)")
     return None
+
+
+def latch_reset_remapped(rec, cell):
+    """does the latch write of memory cell `cell` read a reset value whose signal name is the memory's own (the compiler
+    then routes it through a remapping combinator)?"""
+    stm = rec.get("signal_type_map") or {}
+
+    def wire_name(t):
+        v = stm.get(t, t)
+        return v.get("name") if isinstance(v, dict) else v
+    mems = [op for op in rec.get("ir_final", []) if op.get("kind") == "IRMemCreate"]
+    if cell is None or cell >= len(mems):
+        return False
+    mid, mty = mems[cell].get("memory_id"), wire_name(mems[cell].get("signal_type"))
+    for op in rec.get("ir_final", []):
+        if op.get("kind") == "IRLatchWrite" and op.get("memory_id") == mid:
+            r = op.get("reset_signal")
+            s_ = op.get("set_signal")
+            rn = wire_name(r.get("sig")) if isinstance(r, dict) else None
+            sn = wire_name(s_.get("sig")) if isinstance(s_, dict) else None
+            # reset is remapped when it carries the memory's name after the set has been cast to it
+            return rn == mty and sn == mty
+    return False
 
 
 def classify_mismatch(rec, verdict, mm):
